@@ -17,9 +17,12 @@ type GraphCase struct {
 	Runs    int               `json:"runs"`           // 1 or 2 invocations
 	// ViaClean: the invocation is `spok --clean <request...>` and a task is named clean. --clean runs the user's
 	// clean task; whether the named tasks run as well is not specified, but whatever runs obeys C03.
-	ViaClean bool  `json:"via_clean,omitempty"`
-	JSON     bool  `json:"json"`
-	Sched    Sched `json:"sched"`
+	ViaClean bool `json:"via_clean,omitempty"`
+	// RunnerErr "T_i:ERRNO:times": the command runner returns an error (the command could not be started) for the
+	// i-th command of T, `times` times; the run goes through SpokFile.Run with a wrapped runner (level L1)
+	RunnerErr string `json:"runner_err,omitempty"`
+	JSON      bool   `json:"json"`
+	Sched     Sched  `json:"sched"`
 }
 
 type graphScen struct{}
@@ -191,6 +194,14 @@ func (graphScen) Gen(r *Rng, cfg GenConfig) any {
 		t := Pick(r, c.Prog.Tasks)
 		c.Fail = []string{fmt.Sprintf("%s_%d", t.Name, r.Intn(t.NCmd))}
 	}
+	if r.Chance(1, 25) && reasonFree(c) {
+		// the operating system cannot start one command (once, or every time): a task gets 2-3 commands for this
+		ti := r.Intn(len(c.Prog.Tasks))
+		c.Prog.Tasks[ti].NCmd = r.Range(2, 3)
+		c.Fail = nil
+		c.RunnerErr = fmt.Sprintf("%s_%d:%s:%d", c.Prog.Tasks[ti].Name, r.Intn(c.Prog.Tasks[ti].NCmd), Pick(r, []string{"EAGAIN", "ETXTBSY", "ENOMEM", "EMFILE"}), Pick(r, []int{1, 1, 2, 99}))
+		return c
+	}
 	if r.Chance(1, 10) && reasonFree(c) {
 		// one task becomes the user's clean task and the invocation goes through --clean
 		ti := r.Intn(len(c.Prog.Tasks))
@@ -278,6 +289,26 @@ func grExpectError(p *Program, req []string) (reason string, strict bool) {
 	return "", false
 }
 
+// runnerFault decodes RunnerErr.
+func (c *GraphCase) runnerFault() *RunnerFault {
+	parts := strings.Split(c.RunnerErr, ":")
+	if len(parts) != 3 {
+		return nil
+	}
+	k := strings.LastIndexByte(parts[0], '_')
+	if k <= 0 {
+		return nil
+	}
+	var i, times int
+	fmt.Sscanf(parts[0][k+1:], "%d", &i)
+	fmt.Sscanf(parts[2], "%d", &times)
+	td := c.Prog.Task(parts[0][:k])
+	if td == nil || i >= td.NCmd || errnoByName[parts[1]] == nil {
+		return nil
+	}
+	return &RunnerFault{Cmd: c.Prog.Cmd(td.Name, i), Errno: parts[1], Times: times}
+}
+
 func (graphScen) Exec(w *World, cc any, prop string) *Result {
 	c := cc.(*GraphCase)
 	res := newResult()
@@ -319,7 +350,15 @@ func (graphScen) Exec(w *World, cc any, prop string) *Result {
 		if c.ViaClean && c.Prog.Task("clean") != nil {
 			args = append(args, "--clean")
 		}
-		obs := w.Invoke(Invocation{Args: args, Cwd: w.Proj, Env: w.BaseEnv(), Inv: run, Sched: c.Sched, Faults: NoFaults()})
+		var obs *Obs
+		if rf := c.runnerFault(); rf != nil && reason == "" && !c.ViaClean && w.Level != "L3" {
+			obs = w.InvokeRunner(c.Request, w.BaseEnv(), rf, c.Sched, run)
+			for _, fd := range obs.Fired {
+				res.count("fault_fired:" + fd)
+			}
+		} else {
+			obs = w.Invoke(Invocation{Args: args, Cwd: w.Proj, Env: w.BaseEnv(), Inv: run, Sched: c.Sched, Faults: NoFaults()})
+		}
 		res.Ops++
 		res.Steps += len(obs.Trace)
 		delta := s.logDelta()
@@ -444,6 +483,9 @@ func (graphScen) Exec(w *World, cc any, prop string) *Result {
 		if failingRan {
 			res.count("fault_fired:command_failed")
 			continue // after a failure only order and at-most-once are demanded
+		}
+		if len(obs.Fired) > 0 {
+			continue // a command could not be started: likewise
 		}
 		if obs.Failed {
 			res.Abandoned = "invocation failed although the selection is valid and no command fails: " + short(obs.ErrText, 200)
